@@ -673,7 +673,12 @@ class Server(utils.EventEmitter):
         if request.client_rx_mtu >= att.ATT_DEFAULT_MTU:
             mtu = min(self.max_mtu, request.client_rx_mtu)
 
-            bearer.on_att_mtu_update(mtu)
+            try:
+                bearer.on_att_mtu_update(mtu)
+            except Exception:
+                # The request has been answered: a failing listener must not cause a
+                # second response
+                logger.exception('!!! exception in MTU update listener')
         else:
             logger.warning('invalid client_rx_mtu received, MTU not changed')
 
